@@ -198,6 +198,13 @@ impl Harness {
                 };
                 // what the wire carries: the party id is a field the submitter fills in
                 sig.party_id = self.fixture.signers_fixture()[label].signer_with_stake.party_id.clone();
+                // the HTTP route marks a signature "authenticated" when it verifies for the current or next stake
+                // distribution (slot-based key lookup): any genuine signature of a registered party is
+                // -- also a signature made for ANOTHER message, because the route checks it against the signed
+                // message the submitter names, and the message-queue consumer sets the flag unconditionally
+                if a["auth"].as_bool().unwrap_or(true) {
+                    sig.authentication_status = mithril_common::entities::SingleSignatureAuthenticationStatus::Authenticated;
+                }
                 if variant == "bad" {
                     // a signature for another message
                     let mut other = message.clone();
@@ -367,9 +374,16 @@ impl Harness {
             let name = format!("{}:{}", type_name(r.read::<i64, _>(0)), r.read::<&str, _>(1).replace('"', ""));
             arts.push(json!({"entity": name, "cert": self.cert_ids.get(r.read::<&str, _>(2)).copied().unwrap_or(0)}));
         }
+        let nbuffered = conn
+            .prepare("select count(*) from buffered_single_signature")
+            .ok()
+            .and_then(|st| st.into_iter().next())
+            .and_then(|r| r.ok())
+            .map(|r| r.read::<i64, _>(0))
+            .unwrap_or(0);
         let tp = self.tester.observer.current_time_point().await;
         json!({"state": self.tester.runtime.state_label(), "epoch": *tp.epoch, "imm": tp.immutable_file_number,
-               "certs": certs, "open": open, "sigs": sigs, "arts": arts})
+               "certs": certs, "open": open, "sigs": sigs, "arts": arts, "buffered": nbuffered})
     }
 
     /// index of the fixture party whose registered key verifies this stored signature (-1: nobody's)
@@ -407,8 +421,9 @@ fn random_schedule(r: &mut ChaCha20Rng, len: usize) -> Vec<Value> {
             8..=11 => {
                 let who = below(r, NSIGNERS as u64);
                 let label = if below(r, 6) == 0 { below(r, NSIGNERS as u64) } else { who };
-                let variant = if below(r, 10) == 0 { "bad" } else { "ok" };
-                json!({"a":"Sign","entity": if below(r, 2) == 0 {"MSD"} else {"CDB"}, "who": who, "label": label, "variant": variant})
+                let variant = if below(r, 8) == 0 { "bad" } else { "ok" };
+                json!({"a":"Sign","entity": if below(r, 2) == 0 {"MSD"} else {"CDB"}, "who": who, "label": label, "variant": variant,
+                       "auth": below(r, 3) != 0})
             }
             12 | 13 => json!({"a":"ImmUp"}),
             14 => json!({"a":"EpochUp","n": if below(r, 5) == 0 { 2 } else { 1 }}),
